@@ -54,6 +54,19 @@ type rgbSpace struct {
 	toXYZvia func(from ciexyz.Color, r, g, b float32) ciexyz.Color
 }
 
+// declaredWhiteNow reads the exported white point of a space at the moment of the call.
+func declaredWhiteNow(space string) ciexyy.Color {
+	switch space {
+	case "srgb":
+		return srgb.StandardWhitePoint
+	case "adobergb":
+		return adobergb.StandardWhitePoint
+	case "prophotorgb":
+		return prophotorgb.StandardWhitePoint
+	}
+	return displayp3.StandardWhitePoint
+}
+
 var rgbSpaces = []rgbSpace{
 	{"srgb", srgb.PrimaryRed, srgb.PrimaryGreen, srgb.PrimaryBlue, srgb.StandardWhitePoint,
 		func(r, g, b float32) ciexyz.Color { return srgb.ColorFromLinear(r, g, b).ToXYZ() },
@@ -234,6 +247,13 @@ func matrixCmd(args []string) error {
 				x := sp.toXYZ(t[0]*huge, t[1]*huge, t[2]*huge)
 				sink.put(dy{"kind": "lin", "space": sp.name, "v": []dy{obsv(float64(t[0] * huge)), obsv(float64(t[1] * huge)), obsv(float64(t[2] * huge))}, "o": obs3(x.X, x.Y, x.Z)})
 			}
+			// neutrals of every level, then the declared white point as the package exports it NOW: converting
+			// colours does not change what the package declares
+			for _, gl := range []float32{0, 0.25, 0.5, 0.75, 1, 0.1} {
+				emit(gl, gl, gl)
+			}
+			wn := ciexyz.ColorFromXYY(declaredWhiteNow(sp.name))
+			sink.put(dy{"kind": "white", "space": sp.name, "o": obs3(wn.X, wn.Y, wn.Z), "note": "ColorFromXYY(StandardWhitePoint) read after the conversions above"})
 			for i := 0; i < nseed; i++ {
 				a, b, c := seeded(), seeded(), seeded()
 				emit(a, b, c)
@@ -497,6 +517,14 @@ func matrixCmd(args []string) error {
 				}
 			}
 			sink.put(dy{"kind": "mulm", "a": ai, "b": bi, "q": q, "o": rowsOf(m3call(a, "MulM", b).(matrix.Matrix3))})
+			if i%4 == 1 {
+				// operands that are related: a matrix times its own transpose (both ways round), times itself
+				at := m3call(a, "Transpose").(matrix.Matrix3)
+				ati := [][]dy{{ai[0][0], ai[1][0], ai[2][0]}, {ai[0][1], ai[1][1], ai[2][1]}, {ai[0][2], ai[1][2], ai[2][2]}}
+				sink.put(dy{"kind": "mulm", "a": ai, "b": ati, "q": q, "o": rowsOf(m3call(a, "MulM", at).(matrix.Matrix3))})
+				sink.put(dy{"kind": "mulm", "a": ati, "b": ai, "q": q, "o": rowsOf(m3call(at, "MulM", a).(matrix.Matrix3))})
+				sink.put(dy{"kind": "mulm", "a": ai, "b": ai, "q": q, "o": rowsOf(m3call(a, "MulM", a).(matrix.Matrix3))})
+			}
 			v := matrix.Vector3{b[0][0], b[1][0], b[2][0]}
 			mv := m3call(a, "MulV", v).(matrix.Vector3)
 			sink.put(dy{"kind": "mulv", "a": ai, "v": []dy{bi[0][0], bi[0][1], bi[0][2]}, "q": q, "o": []dy{obsv(mv[0]), obsv(mv[1]), obsv(mv[2])}})
